@@ -233,6 +233,7 @@ def import_repo():
     warnings.filterwarnings("ignore")
     import logging
     logging.getLogger("cutplace").setLevel(logging.CRITICAL)
+    logging.disable(logging.CRITICAL)  # the command line front end resets the logger's level
     import cutplace  # noqa: F401
     actual = os.path.dirname(os.path.dirname(os.path.abspath(cutplace.__file__)))
     if os.path.realpath(actual) != os.path.realpath(REPO):
@@ -296,7 +297,7 @@ class Report(object):
         if finding is not None:
             self.known_met[finding["id"]] = self.known_met.get(finding["id"], 0) + 1
             return False
-        if len(self.violations) < 25:
+        if len(self.violations) < 8:
             os.makedirs(self._replay_dir, exist_ok=True)
             path = os.path.join(self._replay_dir, "%s-%d-%d.json" % (self.property_id, os.getpid(), len(self.violations)))
             with open(path, "w", encoding="utf-8") as replay_file:
